@@ -3,7 +3,7 @@ CONSTANTS
   Procs = {"g1", "g2", "g3"}
   Types = {"A", "B"}
   MaxCalls = 2
-  EarlyUnlock = FALSE
+  EarlyUnlock = TRUE
   Locked = TRUE
 INVARIANTS PublishedComplete OneEntryPerType UsesOwnCompleteCodec MutexHeldByBuilder NoLossWhenLocked IdentityStableWhenLocked
 PROPERTIES MapsImmutable
